@@ -358,7 +358,7 @@ def css_obligations(ctx: Ctx) -> None:
         # key pipeline on sample names
         keyf = SStr([fr[0]])
         for w in CSS_PROBES:
-            got = eval_sstr(keyf, {k.uid: w})
+            got = eval_sstr(keyf, {k.uid: w, "__interp__": I})
             ctx.check(got == spec_css_key(w), "C16.csskey", f"css name {w!r} -> {spec_css_key(w)!r}", CSS, f"{w!r} -> {got!r}",
                       f"the property name {w!r} is written as {got!r}; camelCase/underscore normalisation gives {spec_css_key(w)!r}",
                       witness=f"css({w}='v')")
